@@ -41,7 +41,7 @@ DOC_DEFAULT = [-1, 0, 1, 2, 3, 4, 5, 10, 100, 1000]
 
 # (spelling text, numeric value) per language group
 PY_LITS = [("7", 7), ("42", 42), ("3600", 3600), ("3.14", 3.14), ("2.5e-3", 2.5e-3), ("1e6", 1e6), ("0x1F", 31), ("0o17", 15), ("0b1011", 11), ("10_000", 10000), ("5", 5), ("100", 100), ("443", 443), ("5000", 5000)]
-TS_LITS = [("7", 7), ("42", 42), ("3600", 3600), ("3.14", 3.14), ("2.5e-3", 2.5e-3), ("1e6", 1e6), ("0x1F", 31), ("0o17", 15), ("0b1011", 11), ("10_000", 10000), ("5", 5), ("100", 100), ("443", 443), ("5000", 5000), (".75", 0.75), ("0xBEEF", 48879)]
+TS_LITS = [("7", 7), ("42", 42), ("3600", 3600), ("3.14", 3.14), ("2.5e-3", 2.5e-3), ("1e6", 1e6), ("0x1F", 31), ("0o17", 15), ("0b1011", 11), ("10_000", 10000), ("5", 5), ("100", 100), ("443", 443), ("5000", 5000), (".75", 0.75), ("0xBEEF", 48879), ("7E-2", 0.07), ("6E3", 6000)]
 RS_LITS = [("7", 7), ("42", 42), ("3600", 3600), ("3.14", 3.14), ("1e6", 1e6), ("0x1F", 31), ("0o17", 15), ("0b1011", 11), ("10_000", 10000), ("5", 5), ("100", 100), ("443", 443), ("42u8", 42), ("42_i32", 42), ("3.5f64", 3.5), ("1_024usize", 1024), ("0xBEEF", 48879)]
 EXT_LITS = {"rs": [("0x1f32", 0x1F32), ("0xfu8", 15)], "ts": [("10n", 10), ("0X1e", 30), ("1E3", 1000.0)], "py": [("7j", None)]}
 
@@ -178,6 +178,7 @@ def items(tier: str, seed: int):
     out.append({"kind": "filenames"})
     for lang in LANGS:
         out.append({"kind": "lang-section", "lang": lang})
+    out.append({"kind": "mixed-languages"})
     return out
 
 
@@ -418,6 +419,36 @@ def run_item(item) -> Acc:
                     acc.nt(("py", "lang-section-msi", msi, top))
                     if got != ref:
                         acc.fail({"check": "language-section", "lang": "py", "mode": "max_small_integer-section-differs-from-top-level"}, {"lang": "py", "text": rtext, "section": {"max_small_integer": top, "python": {"max_small_integer": msi}}}, ref, got)
+    elif k == "mixed-languages":
+        # one run over files of all four languages, each language with its own allowed_numbers:
+        # every file is judged with ITS language's list, in whatever order the files are given
+        import itertools  # noqa: PLC0415
+
+        names = {"py": "mod.py", "ts": "mod.ts", "js": "mod.js", "rs": "mod.rs"}
+        key = {"py": "python", "ts": "typescript", "js": "javascript", "rs": "rust"}
+        vals = {"py": 41, "ts": 42, "js": 43, "rs": 44}
+        texts = {}
+        for lang in LANGS:
+            ctxs = LANGS[lang][1]
+            snippets = [("return", str(v), v, ctxs["return"][0], ctxs["return"][1], False) for v in vals.values()]
+            texts[lang], _e = _build(lang, snippets)
+        section = {"allowed_numbers": [0, 1]}
+        for lang in LANGS:
+            section[key[lang]] = {"allowed_numbers": [vals[lang]]}
+        files = {names[lg]: texts[lg] for lg in LANGS}
+        for order in [*itertools.permutations(list(LANGS)), ["."]]:
+            root = project({**files, ".thailint.yaml": yaml_dump({"magic-numbers": section})})
+            r = obs.cli_json(["magic-numbers", *(["."] if order == ["."] else [names[lg] for lg in order])], root)
+            remove(root)
+            acc.case()
+            acc.edge()
+            acc.valid()
+            acc.nt(("mixed", tuple(order)))
+            for lang in LANGS:
+                got = sorted(_value_of(MSG.search(v["message"]).group(1)) for v in (r["violations"] or []) if v["file"].endswith(names[lang]) and MSG.search(v["message"]))
+                want = sorted(float(v) for lg, v in vals.items() if lg != lang)
+                if r["violations"] is None or got != want:
+                    acc.fail({"check": "language-section", "lang": lang, "mode": "file-judged-with-another-languages-list-in-a-mixed-run"}, {"lang": lang, "text": texts[lang], "section": section, "mixed_files": files, "order": list(order)}, want, got)
     elif k == "filenames":
         body = {"py": "def f():\n    return 42\n", "ts": "function f() {\n  return 42;\n}\n"}
         names = {
@@ -445,6 +476,9 @@ def replay_case(case) -> list[dict]:
         cfg["magic-numbers"]["allowed_numbers"] = case["allowed_numbers"]
     if case.get("max_small_integer"):
         cfg["magic-numbers"]["max_small_integer"] = case["max_small_integer"]
+    if case.get("mixed_files"):
+        a = run_item({"kind": "mixed-languages"})
+        return [f for f in a.failures if f["case"].get("order") == case.get("order") and f["case"].get("lang") == case.get("lang")]
     if case.get("section"):
         cfg = {"magic-numbers": case["section"]}
         flat = {k_: v for k_, v in case["section"].items() if not isinstance(v, dict)}
